@@ -34,6 +34,25 @@ def bounds(tier):
     return {"orders": "2-5", "mode_sizes": "1-6", "rank_specs": ["int", "list", "same", "fraction"]}
 
 
+def _documented_rank(shape, fraction):
+    """Documented rank for a float/'same' specification: round(c*I_k) with c the root of c^N prod(I) + c sum(I_k^2) = fraction prod(I),
+    by plain bisection. None when some c*I_k is too close to a rounding boundary to be decided independently of the root finder."""
+    shape = [int(s_) for s_ in shape]
+    n, P, S = len(shape), float(np.prod(shape)), float(sum(s_ * s_ for s_ in shape))
+    f = lambda c: P * c ** n + S * c - fraction * P
+    lo, hi = 0.0, max(fraction, 1.0)
+    for _ in range(200):
+        mid = 0.5 * (lo + hi)
+        if f(mid) > 0:
+            hi = mid
+        else:
+            lo = mid
+    c = 0.5 * (lo + hi)
+    if any(abs((s_ * c) % 1.0 - 0.5) < 1e-6 for s_ in shape):
+        return None
+    return [max(int(np.round(s_ * c)), 1) for s_ in shape]
+
+
 def _unit_or_zero(f, w_r, eps, r):
     n = np.linalg.norm(ref.hp(f)[:, r])
     return abs(n - 1) <= 100 * eps or (n == 0 and (w_r is None or w_r == 0))
@@ -150,8 +169,18 @@ def _run_case(case, ctx):
                 rank = [int(rs.randint(1, s + 3)) for s in X.shape]
                 exp = [min(r, s) for r, s in zip(rank, X.shape)]
             else:
-                rank = "same" if spec == "same" else float(gen.choice(rs, [0.3, 0.6]))
-                exp = [min(r, s) for r, s in zip(validate_tucker_rank(X.shape, rank), X.shape)]
+                rank = "same" if spec == "same" else float(gen.choice(rs, [0.3, 0.5, 0.6]))
+                if rs.rand() < 0.5:
+                    # somebody sized another model of the same shape first, keeping some modes uncompressed: the documented
+                    # ranks of this call depend on its own arguments only
+                    nf_ = int(rs.randint(1, order))
+                    validate_tucker_rank(tuple(X.shape), rank, fixed_modes=sorted(rs.choice(order, size=nf_, replace=False).tolist()))
+                    ctx.count("clause/documented-rank-after-fixed-modes-query")
+                own = _documented_rank(X.shape, 1.0 if rank == "same" else rank)
+                if own is None:
+                    ctx.skip("tucker: fractional rank lands on a rounding boundary")
+                    return
+                exp = [min(r, s) for r, s in zip(own, X.shape)]
             modes = list(range(order))
             fixed = None
             if spec in ("int", "list") and not cplx and order >= 3 and rs.rand() < 0.25:
@@ -162,6 +191,27 @@ def _run_case(case, ctx):
                 kf = int(rs.randint(2, order))
                 fixed = rs.permutation(order)[:kf].tolist()
                 out = D.tucker(X, rank, n_iter_max=n_iter, init=(user_core, [f.copy() for f in user_fs]), fixed_factors=list(fixed), tol=tolv, svd=svd, random_state=seed)
+            elif spec in ("int", "list") and not cplx and rs.rand() < 0.2:
+                # a user-supplied model as the starting point, none of it fixed: a non-orthonormal model of the data (exact in half of
+                # the cases, e.g. a non-negative model brought to canonical form); after at least one sweep the result is HOOI output
+                init = "user"
+                n_iter = max(n_iter, 1)
+                tolv = float(gen.choice(rs, [1e-100, 1e-3, 1e-8]))
+                user_fs = [gen.arr(rs, (s_, r_), dt) + (0.5 if rs.rand() < 0.5 else 0.0) for s_, r_ in zip(X.shape, exp)]
+                user_core = gen.arr(rs, exp, dt)
+                exact = bool(rs.rand() < 0.5)
+                if exact:
+                    X = np.asarray(ref.tucker_dense(user_core, user_fs, list(range(order)))[0], dtype=dt)
+                route = gen.choice(rs, ["function", "class", "tensor-object"])
+                ctx.count("clause/user-start-%s-%s" % ("exact" if exact else "inexact", route))
+                start = (user_core.copy(), [f.copy() for f in user_fs])
+                if route == "class":
+                    out = D.Tucker(rank=rank, n_iter_max=n_iter, init=start, tol=tolv, svd=svd, random_state=seed).fit_transform(X)
+                elif route == "tensor-object":
+                    from tensorly.tucker_tensor import TuckerTensor
+                    out = D.tucker(X, rank, n_iter_max=n_iter, init=TuckerTensor(start), tol=tolv, svd=svd, random_state=seed)
+                else:
+                    out = D.tucker(X, rank, n_iter_max=n_iter, init=start, tol=tolv, svd=svd, random_state=seed)
             else:
                 out = D.tucker(X, rank, n_iter_max=n_iter, init=init, tol=tolv, svd=svd, random_state=seed)
             core, fs = out
@@ -187,7 +237,22 @@ def _run_case(case, ctx):
             else:
                 rank = [int(rs.randint(1, X.shape[m] + 2)) for m in modes]
                 exp = [min(r, X.shape[m]) for r, m in zip(rank, modes)]
-            (core, fs), _errs = D.partial_tucker(X, rank, modes=modes, n_iter_max=n_iter, init=init, tol=tolv, svd=svd, random_state=seed)
+            pinit = init
+            if not cplx and rs.rand() < 0.2:
+                init = "user"
+                n_iter = max(n_iter, 1)
+                tolv = float(gen.choice(rs, [1e-100, 1e-3, 1e-8]))
+                user_fs = [gen.arr(rs, (X.shape[m], r_), dt) + (0.5 if rs.rand() < 0.5 else 0.0) for m, r_ in zip(modes, exp)]
+                cs_ = list(X.shape)
+                for r_, m in zip(exp, modes):
+                    cs_[m] = r_
+                user_core = gen.arr(rs, cs_, dt)
+                exact = bool(rs.rand() < 0.5)
+                if exact:
+                    X = np.asarray(ref.tucker_dense(user_core, user_fs, modes)[0], dtype=dt)
+                ctx.count("clause/user-start-%s-partial" % ("exact" if exact else "inexact"))
+                pinit = (user_core.copy(), [f.copy() for f in user_fs])
+            (core, fs), _errs = D.partial_tucker(X, rank, modes=modes, n_iter_max=n_iter, init=pinit, tol=tolv, svd=svd, random_state=seed)
             rep_rank = None
         desc = {"gen": g, "shape": list(X.shape), "rank_spec": rank, "modes": modes, "init": init, "n_iter_max": n_iter, "tol": tolv, "svd": svd, "dtype": "complex128" if cplx else dt}
         if max(exp) > 1 and sum(s > 1 for s in X.shape) > 1:
@@ -207,12 +272,15 @@ def _run_case(case, ctx):
         if rep_rank is not None and list(rep_rank) != exp:
             viol(g, "reported-rank", spec, "TuckerTensor.rank %s but factors have ranks %s" % (rep_rank, exp), desc)
         ctx.count("clause/orthonormal")
-        otol = (2e3 * np.sqrt(eps)) if svd == "symeig_svd" else 500 * eps * max(X.shape)
+        # the sweeps compute their singular vectors with the default SVD whatever `svd` names: the initialisation's SVD (and the
+        # recorded symeig_svd finding) decides the returned factors only when no sweep ran
+        svd_eff = svd if n_iter == 0 else "truncated_svd"
+        otol = (2e3 * np.sqrt(eps)) if svd_eff == "symeig_svd" else 500 * eps * max(X.shape)
         for f, m in zip(fs, modes):
             fh = ref.hp(f)
             dev = np.max(np.abs(fh.conj().T @ fh - np.eye(fh.shape[1])))
             if dev > otol:
-                viol(g, "orthonormal", svd, "mode-%d factor deviates from orthonormal by %.3g (tol %.3g)" % (m, dev, otol), desc)
+                viol(g, "orthonormal", svd_eff, "mode-%d factor deviates from orthonormal by %.3g (tol %.3g)" % (m, dev, otol), desc)
                 return
         if g == "tucker" and fixed is not None and n_iter == 0:
             return    # no sweep: the supplied core is handed back as it is (C14's zero-budget clause), it need not be a projection
